@@ -48,6 +48,25 @@ import (
 //     (WriteFile) - operation SubLinkW. All levels. A view that does not advertise FeatSymlink must refuse the link
 //     as the wrapper itself does.
 //
+// Symbolic links of the base. BasePathFS refuses to create symbolic links, but
+// the base tree may hold links made through the base file system. Over a MemFS
+// base, B holds (and the reference's root holds, made with the same calls in
+// its own namespace) the relative links of baseLinks - to a file, to a
+// directory, dangling, and one with ".." that stays in B -, and linkStrings /
+// linkPairs name them and go through them: every call must agree with the
+// reference (Stat follows, Lstat does not, Open follows, Remove removes the
+// link, ReadDir shows the type, WalkDir does not descend, ...). Links that
+// leave B's namespace - absolute targets, which the base resolves in ITS
+// namespace, and relative targets climbing above B - are the world of a
+// separate system (variant out-links, outLinks / outLinkStrings, first call of
+// a history only) so that what they break does not hide anything else.
+//
+// The base path given to the constructor is an input too: the variants
+// basepath:<class> build the wrapper with an unclean but equivalent spelling
+// of B (basePathSpellings) and explore the first call of every history plus,
+// from the states in which the base's cwd has moved, the next level; the
+// reference, hence the verdict, is that of the clean spelling.
+//
 // Levels. The operation list is static and sorted by decreasing MaxLevel, the
 // deepest level at which an operation is applied; NumOps of the system (which
 // bfs asks after replaying a history) is the length of the prefix that applies
@@ -74,6 +93,12 @@ type opT struct {
 	// MaxLevel is the deepest position in a history (1-based) at which the
 	// operation is applied.
 	MaxLevel int `json:"max_level"`
+	// Long: a single-path call on a string of more than 2 segments (not part
+	// of the compact first level of the variant systems).
+	Long bool `json:"long,omitempty"`
+	// Links: the operands name the symbolic links of the base (nothing to do
+	// over a base without symbolic links).
+	Links bool `json:"links,omitempty"`
 }
 
 const subPrefix = "Sub:"
@@ -155,7 +180,55 @@ var readOnlyCalls = map[string]bool{
 
 var symlinkCalls = map[string]bool{"Symlink": true, "Readlink": true, "EvalSymlinks": true}
 
-var fixedGlobs = []string{"*", "*/f", "/*", "../*"}
+var fixedGlobs = []string{"*", "*/f", "/*", "../*", "l*", "ld/*"}
+
+// baseLinks are the symbolic links made in B through the base (MemFS), and in
+// the reference's root: name below B, target.
+var baseLinks = [][2]string{{"/lf", "f"}, {"/ld", "a"}, {"/lx", "nothing"}, {"/a/lu", "../f"}}
+
+// linkStrings name the links of baseLinks and go through them.
+var linkStrings = []string{
+	"lf", "/lf", "lf/", "lf/f", "lf/..", "./lf", "../lf", "/../lf", "a/../lf",
+	"ld", "/ld", "ld/", "/ld/", "ld/.", "ld/f", "/ld/f", "ld//f", "ld/..", "/ld/..", "ld/../f", "/ld/../f", "ld/x", "/ld/x", "ld/lu", "/ld/lu",
+	"lx", "/lx", "lx/", "lx/f", "/lx/f",
+	"a/lu", "/a/lu", "a/lu/",
+}
+
+// linkPairs are operands of the two-path calls naming the links.
+var linkPairs = [][2]string{
+	{"lf", "x"}, {"/lf", "/x"}, {"ld", "x"}, {"lx", "x"}, {"f", "lf"}, {"f", "lx"}, {"a", "ld"}, {"f", "ld"},
+	{"ld/f", "x"}, {"f", "ld/x"}, {"lf", "ld/x"}, {"a/lu", "x"},
+}
+
+// outLinks are the links of the variant out-links: targets that do not stay
+// in B's namespace. The reference holds the same links, made with the same
+// strings: there an absolute target names the reference's own namespace and a
+// climbing target stops at the root, as in a chroot.
+var outLinks = [][2]string{
+	{"/la", basePath + "/f"},    // absolute, in the base's namespace, an object of B
+	{"/lo", "/secret"},          // absolute, a file outside B
+	{"/ldo", siblingPath},       // absolute, a directory outside B
+	{"/lup", "../secret2"},      // relative, climbing to a file outside B
+	{"/lupd", "../bb"},          // relative, climbing to a directory outside B
+	{"/a/lup", "../../secret2"}, // the same from a subdirectory
+}
+
+var outLinkStrings = []string{
+	"la", "/la", "la/", "lo", "/lo", "lo/", "lo/..", "ldo", "/ldo", "ldo/", "ldo/f", "/ldo/f", "ldo/x", "/ldo/x", "ldo/k", "ldo/..", "ldo/../secret2",
+	"lup", "/lup", "lupd", "/lupd", "lupd/f", "/lupd/f", "lupd/x", "lupd/k/x", "a/lup", "/a/lup",
+}
+
+// basePathSpellings: unclean but equivalent spellings of B given to the
+// constructor (Cwd: the base's cwd at that moment, for a relative spelling).
+var basePathSpellings = []struct{ Class, Spelling, Cwd string }{
+	{"trailing-slash", "/top/b/", ""},
+	{"double-slash", "/top//b", ""},
+	{"dot", "/top/./b", ""},
+	{"dotdot", "/top/b/a/..", ""},
+	{"sibling-dotdot", "/top/bb/../b", ""},
+	{"relative", "b", "/top"},
+	{"relative-dot", "./b/", "/top"},
+}
 
 // pairCore is the core of strings for the two-path calls.
 var pairCore = []string{
@@ -340,7 +413,7 @@ func buildOps(tier string) []opT {
 				continue
 			}
 
-			ops = append(ops, opT{Call: c, A: p.S, MaxLevel: lvl})
+			ops = append(ops, opT{Call: c, A: p.S, MaxLevel: lvl, Long: p.Segs > 2})
 		}
 	}
 
@@ -351,6 +424,29 @@ func buildOps(tier string) []opT {
 
 		for _, c := range singleCalls {
 			ops = append(ops, opT{Call: c, A: p, MaxLevel: lvl})
+		}
+	}
+
+	// the symbolic links of the base
+	for _, p := range linkStrings {
+		lvl := levelOf(segs, pathStr{p, segCount(p)})
+
+		for _, c := range singleCalls {
+			ops = append(ops, opT{Call: c, A: p, MaxLevel: lvl, Links: true})
+		}
+	}
+
+	for _, pr := range linkPairs {
+		lvl := levelOf(segs, pathStr{pr[0], segCount(pr[0])}, pathStr{pr[1], segCount(pr[1])})
+
+		for _, c := range []string{"Rename", "Link", "Symlink"} {
+			ops = append(ops, opT{Call: c, A: pr[0], B: pr[1], Two: true, MaxLevel: lvl, Links: true})
+		}
+	}
+
+	for _, p := range outLinkStrings {
+		for _, c := range singleCalls {
+			ops = append(ops, opT{Call: c, A: p, MaxLevel: 1, Links: true})
 		}
 	}
 
@@ -384,7 +480,15 @@ func buildOps(tier string) []opT {
 		}
 	}
 
-	sort.SliceStable(ops, func(i, j int) bool { return ops[i].MaxLevel > ops[j].MaxLevel })
+	// by decreasing MaxLevel; among the operations of the first level only, the
+	// long ones last (the variant systems stop before them)
+	sort.SliceStable(ops, func(i, j int) bool {
+		if ops[i].MaxLevel != ops[j].MaxLevel {
+			return ops[i].MaxLevel > ops[j].MaxLevel
+		}
+
+		return ops[i].MaxLevel == 1 && !ops[i].Long && ops[j].Long
+	})
 
 	return ops
 }
@@ -397,6 +501,20 @@ func opsAtLevel(ops []opT, levels int) []int {
 	for _, o := range ops {
 		for l := 1; l <= o.MaxLevel && l <= levels; l++ {
 			n[l]++
+		}
+	}
+
+	return n
+}
+
+// compactOps is the number of operations (a prefix of the sorted list) of the
+// compact first level: all but the long ones that apply at level 1 only.
+func compactOps(ops []opT) int {
+	n := 0
+
+	for _, o := range ops {
+		if o.MaxLevel > 1 || !o.Long {
+			n++
 		}
 	}
 
